@@ -126,6 +126,15 @@ func (v Value) Hash() uintptr {
 	if v.scalar != 0 {
 		return goRuntimeInt64Hash(v.scalar, 0)
 	}
+	if c, ok := v.iface.(*Closure); ok {
+		// Distinct closures can be equal (same code, same upvalue cells: see
+		// Closure.Equals), so they must have the same hash.
+		h := goRuntimeEfaceHash(c.Code, 0)
+		for _, upv := range c.Upvalues {
+			h = goRuntimeInt64Hash(uint64(uintptr(unsafe.Pointer(upv.ref))), h)
+		}
+		return h
+	}
 	return goRuntimeEfaceHash(v.iface, 0)
 }
 
